@@ -93,8 +93,33 @@ def _worker_init(modname, reclimit):
     signal.signal(signal.SIGALRM, _alarm)
 
 
+_UNITS_DONE = [0]
+_LRU = []
+
+
+def release_caches():
+    """Long-lived workers: the library memoises per CodeBuilder / per class (functools.lru_cache(None) on methods), which pins every
+    class a unit ever created. The caches are semantically transparent; they are emptied between units so memory stays bounded."""
+    import functools
+    import gc
+    import typing
+    if not _LRU or _UNITS_DONE[0] % 2000 == 0:
+        _LRU[:] = [o for o in gc.get_objects() if isinstance(o, functools._lru_cache_wrapper)]
+    for w in _LRU:
+        try:
+            w.cache_clear()
+        except Exception:   # noqa: BLE001
+            pass
+    for cleanup in getattr(typing, "_cleanups", ()):
+        cleanup()
+    gc.collect()
+
+
 def _worker_run(arg):
     idx, unit, timeout = arg
+    _UNITS_DONE[0] += 1
+    if _UNITS_DONE[0] % 40 == 0:
+        release_caches()
     signal.alarm(timeout)
     try:
         r = _MOD.run_unit(unit)
